@@ -64,6 +64,25 @@ props["C04"]["manifest"] = {
     "technique": "Lean 4 mirror of the pattern-matrix algorithm with kernel-checked termination and semantic theorems + differential correspondence on generated programs",
 }
 
+props["C07"] = {
+    "harness": "c07",
+    "level": "proof",
+    "nontrivial": r"^(zc (alpha|run) |# probe )",
+    "timeout": {"quick": 900, "thorough": 7200},
+    "rule": "(a) every generated well-typed ZCore program (700 quick / 12,000 thorough; data, codata, products, thunks, functions, fix, primitives) is printed under four namings of its bound variables - as generated (all distinct), two maximal-shadowing namings drawn from a pool of four names (a binder takes any pool name that no use inside its scope needs from an outer binder, so unrelated outer binders are shadowed wherever possible), and a permutation of the names - and run through the real pipeline: verdict class, exit code and output must be identical; the Lean model decides that each naming has the same canonical form as the original (`zc alpha`) and runs each naming itself (`zc run`). (b) 120 / 600 importer-capture probes: an import of a source whose only free name is zfree, wrapped in 1-4 nested binder forms (let, do, fn, pair pattern, block `that` before and after its use, fix, def) that bind zfree, must be an unbound-variable error naming zfree; 8 controls import a closed source under the same wrappers and must be accepted. (c) 7 `that` locality probes (visible to an earlier contribution, shadows an outer let for contributions and tail, invisible after its block and in a sibling block, an inner block sees an outer `that`, an inner `that` shadows an outer one) with their exact exit codes.",
+    "explanation": "On ZCore the property is a theorem: a closed program and any renaming of its bound variables that has the same canonical form (every binder renamed to its depth, every occurrence to its innermost enclosing binder) are accepted together and have the same reference behaviour, hence (C02) the same machine behaviour; theorems proved so far are listed under `theorems`, the remaining statements stay in ZV/Props/C07Statements.lean and are not counted. The surface resolver (resolver.rs, blocks.rs) is tied to this by the metamorphic runs and the probes, not mirrored: begin-blocks, `that`, and source boundaries are outside ZCore.",
+    "trusted_base": [KERNEL, AXIOMS, HARNESS,
+                     "modelled, not verified: the surface resolver's environment threading is represented by ZCore's scoping (inferC / evalRC look names up innermost-first); the real resolver is compared through acceptance and behaviour of every naming, not occurrence by occurrence",
+                     "NOT modelled: BlockScope / candidate collection (blocks.rs), source and signature boundaries (Local::for_body), provider cloning (program.rs, clone.rs): covered by probes (b) and (c) only",
+                     "the renamer in the harness (its output is checked by the Lean canonical form on every case, so a capturing renaming cannot pass as a violation of the code)"],
+    "assumptions": [],
+}
+props["C07"]["manifest"] = {
+    "text": "Renaming invariance is a Lean theorem on ZCore (canonical renaming; acceptance and reference behaviour depend only on the canonical form) and is tested on the real pipeline by printing every generated program under shadow-maximising and permuted namings - same verdict, exit code and output - with the Lean model certifying that each pair of namings is alpha-equivalent. Import hygiene and `that` locality, which live outside ZCore, are decided by probes over every binder form at depths 1-4 around an import with a free name, and by block-locality probes with exact expected outcomes.",
+    "note": "Proof on the ZCore fragment; blocks, `that` and source boundaries are covered by probes, not by a mirror of blocks.rs.",
+    "technique": "Lean theorem (canonical renaming invariance of typing and reference semantics on ZCore) + metamorphic naming runs certified alpha-equivalent by the model + importer-capture and block-locality probes",
+}
+
 props["C08"] = {
     "harness": "c08",
     "level": "proof",
